@@ -1,0 +1,16 @@
+//! Verification-only seams (cargo feature `verif_hooks`, off by default).
+//!
+//! Nothing in here changes behaviour unless a harness sets one of the cells.
+use std::cell::Cell;
+
+thread_local! {
+    /// Bytes per unit of `filter_kmers`' `memory_size` argument (production value: 10^9).
+    /// Setting it to 1 turns `memory_size` into a budget in bytes, so that every pass plan
+    /// of the bucket planner is reachable with tiny inputs.
+    pub static MEM_UNIT: Cell<usize> = Cell::new(1_000_000_000);
+    /// Number of bucket passes made by the most recent `filter_kmers` call on this thread.
+    pub static LAST_PASSES: Cell<usize> = Cell::new(0);
+    /// When set, `DnaString::from_acgt_bytes` behaves as if AVX2 were not detected,
+    /// i.e. the crate's own scalar fallback runs.
+    pub static FORCE_SCALAR_ASCII: Cell<bool> = Cell::new(false);
+}
